@@ -1,6 +1,6 @@
 use rand::Rng;
 
-use crate::{utils::ArrayMap, Color, Piece, PieceIndex, Square, State};
+use crate::{utils::ArrayMap, AttackGenerator, Color, File, Piece, PieceIndex, Square, State};
 
 pub type Hash = u64;
 
@@ -8,6 +8,8 @@ pub type Hash = u64;
 pub struct ZobristHasher {
     turn_hash: ArrayMap<Color, u64>,
     piece_hash: ArrayMap<Square, ArrayMap<PieceIndex, u64>>,
+    castle_hash: [u64; 4],
+    en_passant_hash: ArrayMap<File, u64>,
 }
 
 impl ZobristHasher {
@@ -18,6 +20,8 @@ impl ZobristHasher {
         Self {
             turn_hash: ArrayMap::from_fn(|_| rng.next_u64()),
             piece_hash: ArrayMap::from_fn(|_| ArrayMap::from_fn(|_| rng.next_u64())),
+            castle_hash: std::array::from_fn(|_| rng.next_u64()),
+            en_passant_hash: ArrayMap::from_fn(|_| rng.next_u64()),
         }
     }
 
@@ -35,6 +39,31 @@ impl ZobristHasher {
         }
 
         hash ^= self.turn_hash[state.turn_to_move()];
+
+        // Castling rights and an available en passant capture change the legal moves,
+        // so positions that differ in either must not share a hash
+        for (i, color) in Color::ALL.iter().enumerate() {
+            let rights = state.castle_rights(*color);
+            if rights.kingside {
+                hash ^= self.castle_hash[i * 2];
+            }
+
+            if rights.queenside {
+                hash ^= self.castle_hash[i * 2 + 1];
+            }
+        }
+
+        if let Some(target) = state.en_passant_target() {
+            // Only relevant if there is a pawn that could actually make the capture
+            let us = state.turn_to_move();
+            let capturers = AttackGenerator::compute_pawn_attacks(target, !us)
+                & state.board().piece_occupancy(PieceIndex::new(us, Piece::Pawn));
+
+            if capturers.any() {
+                hash ^= self.en_passant_hash[target.file()];
+            }
+        }
+
         hash
     }
 }
